@@ -32,12 +32,12 @@ def run(ctx, crate, depths, clause="rotate-scale"):
         vx, vy = r.state.heap.get(X), r.state.heap.get(Y)
         if vx is None or vy is None:
             bad.append((d, "no value written to the pair")); continue
-        px, py = to_poly(vx, {X: "x", Y: "y"}), to_poly(vy, {X: "x", Y: "y"})
+        px, py = to_poly(vx, {X: "x", Y: "y"}, e.phi_ops, e.phi_gate), to_poly(vy, {X: "x", Y: "y"}, e.phi_ops, e.phi_gate)
         f = Poly.const(Fraction(2) ** (d - 1))
         wx, wy = (x + y + Poly.const(1)) * f, (y + Poly.const(1) + Poly.const(8) - x) * f
         n += 1
         if px != wx or py != wy:
-            bad.append((d, "x' = %r, y' = %r; expected %r, %r" % (px, py, wx, wy) if px is not None and py is not None else "not a polynomial: %s" % show(vx)[:80]))
+            bad.append((d, "x' = %r, y' = %r; expected %r, %r" % (px, py, wx, wy) if px is not None and py is not None else ("not x * 2^k for every x: %s%s" % (show(vx)[:80], " — at depth 0 the exponent trick adds -1 << 52 to the bits of the value: the bits of 0.0 become those of -inf (x + y + 1 = 0 on the lon = 0 meridian of the south cap)" if d == 0 else ""))))
     ctx.functions.add(FN)
     ctx.report(clause, FN + ":x+y,y-x scaled by nside/2", not bad and n == len(depths),
                "for depth %s: (x, y) -> ((x + y + 1), (y + 9 - x)) * 2^(depth-1), depth 0 included" % ("0..=29" if len(depths) == 30 else list(depths)) if not bad else
